@@ -358,7 +358,8 @@ def tg_strategy(tier):
                     edges.append([perm[i], perm[j]])
         order = draw(st.permutations(list(range(n))))
         # per node 1-2 strategies with runtimes; the slowest is the weight
-        rts = draw(st.lists(st.lists(st.integers(1, 9), min_size=1, max_size=2), min_size=n, max_size=n))
+        rt = st.one_of(st.integers(1, 9), st.integers(1, 9), st.sampled_from([1000, 2000, 1500, 999, 3000]))
+        rts = draw(st.lists(st.lists(rt, min_size=1, max_size=2), min_size=n, max_size=n))
         comp = draw(st.lists(st.integers(0, 30), min_size=n, max_size=n))
         return {"n": n, "edges": edges, "order": list(order), "runtimes": rts, "completion": comp}
 
@@ -371,7 +372,8 @@ def _profile(name, runtimes):
         execution_strategies=ExecutionStrategies(
             [
                 ExecutionStrategy(resources=Resources({Resource(name="CPU", _id="any"): 1}), batch_size=1,
-                                  runtime=EventTime(r, EventTime.Unit.US))
+                                  # whole milliseconds are written in milliseconds: weights are durations, not numerals
+                                  runtime=EventTime(r // 1000, EventTime.Unit.MS) if r >= 1000 and r % 1000 == 0 else EventTime(r, EventTime.Unit.US))
                 for r in runtimes
             ]
         ),
